@@ -269,70 +269,15 @@ def run(repo, res, tier):
 
     cls = repo.cls(S, "Scenario")
     mod = cls.mod
+    # ---- the protocol itself is decided by abstract evaluation on a world that contains one object of every kind
+    # (c09ev): pool == ids of the contained objects after every way of adding / removing, rejected adds change
+    # nothing, removing what is not contained changes nothing
+    from . import c09ev
+
+    c09ev.pool_rules(repo, res)
+    registry_of = dict((k, v) for k, v in c09ev.REG.items())
     add = repo.method(S, "Scenario", "add_objects")
     objp = add.args.args[1].arg
-
-    # ---- add branches: isinstance chain on the object parameter
-    branches = {}  # kind -> (If node)
-    node = None
-    for s in add.body:
-        if isinstance(s, ast.If):
-            node = s
-    while isinstance(node, ast.If):
-        t = node.test
-        if isinstance(t, ast.Call) and call_name(t) == "isinstance" and norm(t.args[0]) == objp:
-            branches[norm(t.args[1])] = node
-        node = node.orelse[0] if len(node.orelse) == 1 and isinstance(node.orelse[0], ast.If) else None
-    kinds = [k for k in branches if k != "list"]
-    if len(kinds) < 9:
-        raise AnalysisError("add_objects: expected >= 9 isinstance branches, found %s" % kinds)
-
-    reserved = {}
-    for k in kinds:
-        br = branches[k]
-        marks = [c for c in reserve_calls(add) if in_body(mod, c, br, "body")]
-        paths = sorted(reserved_paths(mod, add, marks, [objp]))
-        reserved[k] = paths
-        inst = "add_objects[%s] reserves %s" % (k, paths)
-        res.check("PAIR-RESERVE", inst, bool(paths) and not any(p.startswith("?") for p in paths), mod, br, "add_objects branch %s" % k, "branch stores an object without reserving its id(s) (or an id expression could not be related to the object)", qualname="Scenario.add_objects")
-        # reservation precedes every store / delegate-add in the branch
-        stores = []
-        for s in br.body:
-            for n in ast.walk(s):
-                if isinstance(n, (ast.Assign, ast.AnnAssign)):
-                    tg = n.targets if isinstance(n, ast.Assign) else [n.target]
-                    if any(isinstance(x, (ast.Subscript, ast.Attribute)) and norm(x).startswith("self._") for x in tg):
-                        stores.append(n)
-                elif isinstance(n, ast.Call) and isinstance(n.func, ast.Attribute) and n.func.attr.startswith("add_") and "lanelet_network" in norm(n.func.value):
-                    stores.append(n)
-        if marks and stores:
-            last_mark = max((m.lineno, m.col_offset) for m in marks)
-            first_store = min((s.lineno, s.col_offset) for s in stores)
-            res.check("PAIR-RESERVE", "add_objects[%s] reserves before storing" % k, last_mark < first_store, mod, br, "add_objects branch %s stores before reserving" % k, "if the reservation raises ValueError the object is already stored: the scenario is changed by a failed add", qualname="Scenario.add_objects")
-        # atomicity
-        single = len(marks) == 1 and not any(isinstance(a, (ast.For, ast.While)) and inside(mod, marks[0], a) and inside(mod, a, br) for a in ast.walk(br))
-        res.check("PAIR-ATOMIC", "add_objects[%s] single reservation step" % k, single, mod, marks[0] if marks else br, "add_objects branch %s reserves ids in %d steps" % (k, len(marks)), "ids are reserved one by one: when a later reservation raises ValueError the earlier ids stay reserved although nothing was added", qualname="Scenario.add_objects")
-
-    # ---- a network reserves exactly what its members would reserve when added one by one
-    ln = repo.cls("commonroad/scenario/lanelet.py", "LaneletNetwork")
-    want = []
-    for k in kinds:
-        if k == "LaneletNetwork":
-            continue
-        for pn, pd in ln.props.items():
-            g = pd.get("get")
-            if g is not None and g.returns is not None and norm(g.returns) == "List[%s]" % k:
-                want += [x.replace("<obj>", "<obj>.%s[*]" % pn, 1) for x in reserved[k]]
-    res.check(
-        "PAIR-RESERVE",
-        "add_objects[LaneletNetwork] reserves the union of its members' ids %s" % sorted(want),
-        sorted(want) == reserved.get("LaneletNetwork"),
-        mod,
-        branches["LaneletNetwork"],
-        "add_objects[LaneletNetwork] reserves %s, members reserve %s" % (reserved.get("LaneletNetwork"), sorted(want)),
-        "the ids reserved for a lanelet network differ from what adding its lanelets, signs, lights and intersections one by one reserves (and what their removal releases)",
-        qualname="Scenario.add_objects",
-    )
 
     # ---- reserve helpers: raise only before the first mutation of _id_set
     for mn, fn in cls.methods.items():
@@ -347,79 +292,23 @@ def run(repo, res, tier):
         ok = all((r.lineno, r.col_offset) < first_mut for r in raises) and not in_loop
         res.check("PAIR-ATOMIC", "%s raises only before mutating" % mn, ok, mod, fn, "%s may raise after reserving" % mn, "a collision detected after some ids were already added leaves them reserved", qualname="Scenario." + mn)
 
-    # ---- removal functions
-    registry_of = {}  # kind -> registry attr (obstacle kinds) from add branches
-    for k in kinds:
-        for n in [x for st in branches[k].body for x in ast.walk(st)]:
-            if isinstance(n, ast.Assign) and isinstance(n.targets[0], ast.Subscript):
-                ch = attr_chain(n.targets[0].value)
-                if ch and ch[0] == "self" and len(ch) == 2:
-                    registry_of[k] = ch[1]
-    for rname, rkinds in REMOVERS.items():
-        fn = repo.method(S, "Scenario", rname)
-        p = fn.args.args[1].arg
-        rel = release_calls(fn)
-        # list form = body of `if isinstance(p, list):`
-        list_if = None
-        for s in fn.body:
-            if isinstance(s, ast.If) and isinstance(s.test, ast.Call) and call_name(s.test) == "isinstance" and norm(s.test.args[0]) == p and norm(s.test.args[1]) == "list":
-                list_if = s
-        forms = {}
-        if list_if is not None:
-            forms["list"] = [c for c in rel if in_body(mod, c, list_if, "body")]
-            forms["single"] = [c for c in rel if not in_body(mod, c, list_if, "body")]
-            delegates = any(isinstance(n, ast.Call) and norm(n.func) == "self." + rname for s in list_if.body for n in ast.walk(s))
-        else:
-            forms["both"] = rel
-            delegates = False
-        for form, calls in forms.items():
-            if form == "list" and delegates and not calls:
-                for k in rkinds:
-                    res.ok("PAIR-RELEASE", "%s[%s form, %s] delegates to the single form" % (rname, form, k))
-                continue
-            for k in rkinds:
-                if k not in reserved:
-                    raise AnalysisError("no add_objects branch for kind %s" % k)
-                mine = calls
-                if len(rkinds) > 1:  # branch per registry
-                    reg = registry_of.get(k)
-                    mine = [c for c in calls if any(reg and ("self.%s" % reg) in norm(t) for t, pol in dominating_guards(mod, c, stop=fn) if pol)]
-                    # a release in the common tail after the branch chain belongs to every branch that reaches it
-                    drops = [d for d in walk_no_nested(fn) if isinstance(d, ast.Delete) and any(isinstance(t, ast.Subscript) and norm(t.value) == "self.%s" % reg for t in d.targets)]
-                    for d in drops:
-                        for c in tail_after(mod, fn, d, calls):
-                            if c not in mine:
-                                mine.append(c)
-                paths = sorted(reserved_paths(mod, fn, mine, [p]))
-                inst = "%s[%s form, %s] releases %s" % (rname, form, k, paths)
-                res.check(
-                    "PAIR-RELEASE",
-                    inst,
-                    paths == reserved[k],
-                    mod,
-                    (mine[0] if mine else fn),
-                    "%s %s form releases %s but add_objects[%s] reserves %s" % (rname, form, paths, k, reserved[k]),
-                    "ids reserved when the object was added are not all released by this removal (or more are released): a removed object cannot be added again / an id in use is freed",
-                    qualname="Scenario." + rname,
-                )
-                # guard: each release dominated by a containment test or by the `found` result of the drop
-                for c in mine:
-                    guards = dominating_guards(mod, c, stop=fn)
-                    ok = any(guard_means_contained(t, pol) for t, pol in guards) or tail_guarded(mod, fn, c)
-                    # releasing ids of sub-objects (incomings) of an object whose own release is guarded
-                    res.check(
-                        "PAIR-GUARD",
-                        "%s[%s form, %s] release %s guarded by containment" % (rname, form, k, norm(c.args[0]) if c.args else "?"),
-                        ok,
-                        mod,
-                        c,
-                        "%s: %s not guarded by containment of the object" % (rname, norm(c)),
-                        "the id is released even when the object is not contained in the scenario: removing a foreign object frees the id of a contained one (double free) or raises KeyError",
-                        qualname="Scenario." + rname,
-                    )
-
     # ---- owners
     allowed_drop = set(REMOVERS)
+    # private helpers that are only ever called from the removal functions (or from such helpers) act on their behalf
+    callers = {}
+    for mn_, fn_ in cls.methods.items():
+        for n_ in ast.walk(fn_):
+            if isinstance(n_, ast.Call) and isinstance(n_.func, ast.Attribute) and norm(n_.func.value) in ("self", "cls") and n_.func.attr in cls.methods:
+                callers.setdefault(n_.func.attr, set()).add(mn_)
+            elif isinstance(n_, ast.Attribute) and norm(n_.value) in ("self", "cls") and n_.attr in cls.methods and isinstance(n_.ctx, ast.Load):
+                callers.setdefault(n_.attr, set()).add(mn_)  # also when handed on as a value
+    grew = True
+    while grew:
+        grew = False
+        for mn_ in cls.methods:
+            if mn_ not in allowed_drop and mn_.startswith("_") and not mn_.startswith("__") and callers.get(mn_) and callers[mn_] - {mn_} <= allowed_drop:
+                allowed_drop.add(mn_)
+                grew = True
     for mn, fn in list(cls.methods.items()):
         for n in walk_no_nested(fn):
             if isinstance(n, ast.Call) and isinstance(n.func, ast.Attribute):
@@ -440,44 +329,6 @@ def run(repo, res, tier):
                 for t in tg:
                     if norm(t) == "self._id_set" and mn != "__init__":
                         res.bad("PAIR-OWNER", "%s assigns _id_set" % mn, Finding("PAIR-OWNER", mod, n, "%s: %s" % (mn, norm(n)), "the id pool is replaced", qualname="Scenario." + mn))
-
-    # ---- replacement of the network
-    for mn, fn in cls.methods.items():
-        if mn == "__init__":
-            continue
-        for n in walk_no_nested(fn):
-            if isinstance(n, (ast.Assign, ast.AnnAssign)):
-                tg = n.targets if isinstance(n, ast.Assign) else [n.target]
-                if not any(norm(t) == "self._lanelet_network" for t in tg):
-                    continue
-                # accepted: preceded (same function, earlier) by self.erase_lanelet_network() ; or, inside the
-                # erase function, by removal loops over all four member collections of the old network
-                before = [c for c in walk_no_nested(fn) if isinstance(c, ast.Call) and (c.lineno, c.col_offset) < (n.lineno, n.col_offset)]
-                erased = any(norm(c.func) == "self.erase_lanelet_network" for c in before)
-                if not erased:
-                    removed = {c.func.attr for c in before if isinstance(c.func, ast.Attribute) and norm(c.func.value) == "self" and c.func.attr in NETWORK_DROP}
-                    erased = removed == set(NETWORK_DROP)
-                if not erased:
-                    # reserve helper called with released_ids=<same id collector>(self._lanelet_network)
-                    for c in before:
-                        if isinstance(c.func, ast.Attribute) and c.func.attr.startswith("_mark_object_id") and c.args:
-                            for kw in c.keywords:
-                                if kw.arg == "released_ids":
-                                    rel_paths = sorted(expr_paths(mod, fn, kw.value, {"self": "<self>"}, c))
-                                    new_paths = sorted(expr_paths(mod, fn, c.args[0], {objp: "<obj>"}, c))
-                                    want = sorted(x.replace("<obj>", "<self>._lanelet_network") for x in new_paths)
-                                    if rel_paths == want and new_paths and not any(x.startswith("?") for x in new_paths):
-                                        erased = True
-                res.check(
-                    "PAIR-REPLACE",
-                    "%s assigns _lanelet_network" % mn,
-                    erased,
-                    mod,
-                    n,
-                    "%s: %s without releasing the old network's ids" % (mn, norm(n)),
-                    "the ids of the lanelets, signs, lights and intersections of the replaced network stay reserved although the objects are gone",
-                    qualname="Scenario." + mn,
-                )
 
     # ---- counter
     for mn, fn in cls.methods.items():
@@ -609,7 +460,7 @@ def run(repo, res, tier):
         if nonempty:
             res.check("COUNTER", "generate_object_id (%s): the new id exceeds every id in use" % tag, any(sy == "M" and k >= 1 for sy, k in cnt), mod, gen, "generate_object_id (%s): new counter >= %s" % (tag, sorted(cnt)), "ids in use are not taken into account: a generated id may collide with a contained object", qualname="Scenario.generate_object_id")
         res.check("COUNTER", "generate_object_id (%s) returns the new counter" % tag, rv == cnt and bool(rv), mod, gen, "generate_object_id (%s) returns %s >= %s, counter >= %s" % (tag, rtxt, sorted(rv), sorted(cnt)), "the returned id is not the freshly incremented counter", qualname="Scenario.generate_object_id")
-    return {"reserved_id_paths": reserved}
+    return {"world": "one object of every kind; network model; see c09ev"}
 
 
 CONTAINER_MUT = {"add", "remove", "discard", "update", "clear", "pop", "difference_update", "intersection_update"}
